@@ -56,7 +56,8 @@ def main(argv=None):
                 return 1
             print(f"REPLAY: {key[0]} {key[1]} no longer violated")
             return 0
-        if a.tier == "thorough" and not res.violations():
+        known = {(k["rule"], k["construct"]) for k in report.load_known() if k.get("property") == pid and k.get("status") == "known"}
+        if a.tier == "thorough" and not (res.keys() - known):
             from . import selfval
 
             res.selfval = selfval.run(pid, repo, res, jobs=a.jobs)
